@@ -36,12 +36,12 @@ CLAIMED = {
             TRUST, "DESIGN.md §4 C08, §9.6 round 5"),
     "C09": (SIM + " with fault injection: producer crash = valid stream truncated after a backend word; strict readers over 6 strict backends incl. a stub failing with EOF or a hard error; zero-extended reader",
             "fault_enumeration",
-            "The cut is placed relative to measured codeword extents (items ending 0..2 words before, exactly at, or straddling the cut); items wholly inside must decode (incl. failed-peek table fallback), the first operation needing a bit beyond the cut must return Err, never a value; zero-extended readers see zeros and never fail.",
-            TRUST + " Nothing asserted after the first Err.", "DESIGN.md §4 C09"),
+            "The cut is placed relative to measured codeword extents (items ending 0..2 words before, exactly at, or straddling the cut); items wholly inside must decode (incl. failed-peek table fallback), the first operation needing a bit beyond the cut must return Err, never a value; zero-extended readers see zeros and never fail. After the end-of-data error the reader is seeked back to the start of an earlier item and every item inside the data must decode again.",
+            TRUST + " Nothing is asserted between the first Err and that seek (the state of a reader after a failed operation is not specified; see DESIGN.md §9.6 round 6).", "DESIGN.md §4 C09, §9.6 round 6"),
     "C11": (SIM + " with fault injection: real WordAdapter over a simulated byte device (SimDisk) with seeded fault plans (short reads/writes at every byte limit, Interrupted, Ok(0), hard errors, seek errors, full device, trailing partial word); conservation oracle over the recorded device history",
             "fault_enumeration",
             "The first fault of each faulting run is placed systematically (call index = run/15 mod calls, byte limit cycling through 1..word bytes-1) so that every call index and per-call limit is hit across runs; further benign faults at a swarm-randomised rate. Oracle: bytes acknowledged with Ok are on the device exactly once and in order; an error leaves the acknowledged bytes plus at most a prefix of the failed word; words read equal successive device chunks; a trailing partial word is an error; word_pos = words transferred; fault-free runs must succeed; after a failed read or write, checking resumes at the next successful absolute seek (seeking to a word position addresses that word). 'Trickle' plans make nearly every call short or interrupted. Bit-level reads include table-driven codes (known finding: a hard error inside the look-ahead is swallowed by the table readers).",
-            TRUST + " Nothing is asserted about a stream between an error and the next successful seek. Word positions up to 2^62 bytes are exercised fault-free over a sparse byte source (1 run in 25).", "DESIGN.md §4 C11, §9.6 round 5"),
+            TRUST + " Nothing is asserted about a stream between an error and the next successful seek. Word positions up to 2^62 bytes are exercised fault-free over a sparse byte source (1 run in 25); a word_pos() reported after a failed read/write (direct wrap) must equal the device byte position in words, rounded down or up.", "DESIGN.md §4 C11, §9.6 rounds 5-6"),
     "C12": (SIM + ": histories interleaving io::Write::write/write_all and io::Read::read of slices of every length class with bit operations at every bit offset, writer words u8..u128, all reader kinds",
             "exploration",
             "The model stream gains / yields exactly the slice bytes in stream order at the current position; the call reports the whole slice; no panic. Scale: slices up to 70 001 bytes (1 slice in 250) and single slices / read buffers of 512 KiB-1 .. 1 MiB+7 (1 run in 750).",
@@ -53,11 +53,11 @@ CLAIMED = {
             "DESIGN.md §4 C13"),
     "C14": (SIM + ": the same history on a bare stream and through CountBit*/DbgBit* wrappers created mid-stream, through every path the wrappers expose",
             "exploration",
-            "Values, returned lengths, bytes and positions must be identical; bits_read must equal the bare reader's bit_pos delta and bits_written the measured bits appended after every step; after a flush both consistent readings of the counter are accepted.",
-            TRUST, "DESIGN.md §4 C14"),
+            "Values, returned lengths, bytes and positions must be identical; bits_read must equal the bare reader's bit_pos delta and bits_written the measured bits appended after every step; after a flush both consistent readings of the counter are accepted. A third of the reader cases then seeks back through the wrapper and reads the rest again; one run in 100 000 drives the counters across a unary part / skip of 2^32 bits over the sparse stubs.",
+            TRUST, "DESIGN.md §4 C14, §9.6 rounds 5-6"),
     "C15": ("deterministic simulation of thread schedules: shuttle (seeded random and PCT schedulers, replayable schedule) runs 2-4 simulated threads plus an observer on one shared CodesStatsWrapper whose Mutex is shuttle's through a cfg-guarded import; snapshots are decoded (base-4 digits of the unary total) into per-value update counts and checked for exactness and real-time order; totals against real encoded sizes",
             "exploration",
-            "Per case 20 (quick) / 60 (thorough) schedules: every snapshot must be the exact sum over the per-value update counts encoded in its unary total (no torn update; values may repeat, also across threads), contain all updates completed before it and none invoked after it; after join every per-code total equals the real encoded size measured from the writer's output (pins the index->parameter mapping); merged partial statistics (add, +=, +, sum, multiplicities; default family sizes and CodesStats<3,5,2,6,4>) equal the union; best_code has the minimum total and its real cost. A failing schedule is pinned in the replay file.",
+            "Per case 20 (quick) / 60 (thorough) schedules: every snapshot must be the exact sum over the per-value update counts encoded in its unary total (no torn update; values may repeat, also across threads), contain all updates completed before it and none invoked after it; after join every per-code total equals the real encoded size measured from the writer's output (pins the index->parameter mapping); merged partial statistics (add, +=, +, sum, multiplicities; default family sizes and CodesStats<3,5,2,6,4>) equal the union; best_code has the minimum total and its real cost. Every schedule ends with writes through the wrapper into a full fixed slice and reads from an exhausted strict stream: a failed call must leave count and totals unchanged. A failing schedule is pinned in the replay file.",
             "Trusts shuttle's scheduler and Mutex model; the only lock in the crate is the one replaced through the hook. Sizes for (code, value) pairs with unary parts above 20000 bits are not measured.",
             "DESIGN.md §4 C15"),
     "C19": ("deterministic configuration replay: the same seeded histories of families C01 C02 C03 C05 C07 C08 C12 C14 (clean arguments) are executed by 6 (quick) / 8 (thorough) builds of the crate (features default/checks/no_copy_impls/both x release/debug-assertions+overflow-checks) and the per-run event-log digests are diffed; exhaustive C19W family for the checks assertion",
